@@ -268,8 +268,59 @@ macro_rules! kind_items {
     };
 }
 
+macro_rules! hop_dispatch {
+    (true, $st:ident, $ext:ident, $case:ident, $lines:ident, $ctx:ident, $hop:ident) => {{
+        if $hop {
+            // two helper threads take the requests in turn (request i runs on helper i % 2); the state sits behind a mutex
+            // that is only ever taken by the thread whose turn it is
+            let state = std::sync::Mutex::new((&mut $st, &mut $ext, &mut *$ctx));
+            std::thread::scope(|s| {
+                let (txa, rxa) = std::sync::mpsc::channel::<usize>();
+                let (txb, rxb) = std::sync::mpsc::channel::<usize>();
+                let (dtx, drx) = std::sync::mpsc::channel::<bool>();
+                for rx in [rxa, rxb] {
+                    let dtx = dtx.clone();
+                    let state = &state;
+                    s.spawn(move || {
+                        while let Ok(i) = rx.recv() {
+                            let mut g = state.lock().unwrap_or_else(|e| e.into_inner());
+                            let (st, ext, ctx) = &mut *g;
+                            let r = exec_lines(st, ext, $case, &$lines[i..i + 1], i, ctx);
+                            drop(g);
+                            let _ = dtx.send(r);
+                        }
+                    });
+                }
+                let mut ok = true;
+                for i in 0..$lines.len() {
+                    ok = if $lines[i].starts_with("conc ") {
+                        let mut g = state.lock().unwrap_or_else(|e| e.into_inner());
+                        let (st, ext, ctx) = &mut *g;
+                        exec_lines(st, ext, $case, &$lines[i..i + 1], i, ctx)
+                    } else {
+                        let _ = (if i % 2 == 0 { &txa } else { &txb }).send(i);
+                        drx.recv().unwrap_or(false)
+                    };
+                    if !ok {
+                        break;
+                    }
+                }
+                drop(txa);
+                drop(txb);
+                ok
+            })
+        } else {
+            exec_lines(&mut $st, &mut $ext, $case, $lines, 0, $ctx)
+        }
+    }};
+    (false, $st:ident, $ext:ident, $case:ident, $lines:ident, $ctx:ident, $hop:ident) => {{
+        let _ = $hop;
+        exec_lines(&mut $st, &mut $ext, $case, $lines, 0, $ctx)
+    }};
+}
+
 macro_rules! flavour_mod {
-    ($m:ident, $fl:ident, $kind:ident, $tag:expr) => {
+    ($m:ident, $fl:ident, $kind:ident, $tag:tt) => {
         pub mod $m {
             #![allow(unused, clippy::all)]
             use super::*;
@@ -422,8 +473,21 @@ macro_rules! flavour_mod {
             pub fn exec_case(case: &str, lines: &[String], ctx: &mut Ctx) -> bool {
                 let mut st = St { nodes: vec![], twins: vec![] };
                 let mut ext = crate::exec_ext::$m::Ext::default();
+                // `hop=1` in the case line (sync flavours): the requests run on two helper threads in turn, one after the other -
+                // the objects move between threads sequentially, so nothing may depend on thread-local state
+                // (every third case of a sync flavour, chosen by a hash of the case line, so that a replay hops exactly when the
+                // original did; `hop=0` / `hop=1` force it)
+                let hop = if case.split(' ').any(|t| t == "hop=0") {
+                    false
+                } else {
+                    case.split(' ').any(|t| t == "hop=1") || case.bytes().fold(0xcbf29ce484222325u64, |h, b| (h ^ b as u64).wrapping_mul(0x100000001b3)) % 3 == 0
+                };
+                hop_dispatch!($tag, st, ext, case, lines, ctx, hop)
+            }
+            fn exec_lines(st: &mut St, ext: &mut crate::exec_ext::$m::Ext, case: &str, lines: &[String], base: usize, ctx: &mut Ctx) -> bool {
                 let quiet_until: usize = case.split(' ').find_map(|t| t.strip_prefix("quiet=")).and_then(|x| x.parse().ok()).unwrap_or(0);
-                for (li, raw) in lines.iter().enumerate() {
+                for (k, raw) in lines.iter().enumerate() {
+                    let li = base + k;
                     ctx.quiet = li < quiet_until;
                     // run-time annotations (`@order=...`, `@abs=...`) are regenerated on every execution
                     let clean: String = raw.split(' ').filter(|x| !x.starts_with('@')).collect::<Vec<_>>().join(" ");
@@ -546,7 +610,7 @@ macro_rules! flavour_mod {
                             "dump" => dump(&st),
                             "obs" => obs(st.node(p(1))),
                             "q" => q(st.node(p(1)), p(2)),
-                            _ => crate::exec_ext::$m::exec_line(&mut st, &mut ext, &t, raw, ctx, case, li),
+                            _ => crate::exec_ext::$m::exec_line(&mut *st, &mut *ext, &t, raw, ctx, case, li),
                         }));
                         r.map_err(|_| ())
                     };
